@@ -17,7 +17,8 @@ HERE = os.path.dirname(os.path.abspath(__file__))
 ROOT = os.path.dirname(os.path.dirname(HERE))
 sys.path.insert(0, os.path.join(ROOT, "vc"))
 sys.path.insert(0, os.path.join(ROOT, "units"))
-from gen import UnitFile, Tag  # noqa: E402
+import rewrite as rw  # noqa: E402
+from gen import Contract, UnitFile, Tag  # noqa: E402
 from extract import ExtractError, skeleton_hash  # noqa: E402
 from slicer import Slicer  # noqa: E402
 import common  # noqa: E402
@@ -28,11 +29,47 @@ MIN_FUNCTIONS = 8
 
 ASSUMPTIONS = {
     "nondet": "a dropped condition may go either way", "nondet_u8": "a dropped match may take any arm",
+    "SymbolName": "opaque stand-in for ast::SymbolName", "clone": "Clone returns an equal value", "Type": "opaque", "Position": "opaque", "SyntaxId": "opaque",
+    "TcBlock": "FxHashMap<SymbolName, (Type, Position)> behind a ghost map view `tbm`", "vtb_new": "FxHashMap::default() is the empty map",
+    "vtb_get": "FxHashMap::get", "vtb_insert_last": "`blocks.last_mut().expect(..)` followed by `insert`: panics on an empty stack (an obligation), adds the entry to the last block",
 }
-LEMMAS = {}
+LEMMAS = {"lemma_lookup_skip": {"C19"}, "lemma_lookup_update": {"C19"}, "lemma_lookup_other": {"C19"}}
 UNVERIFIED = {"C19": [
-    "the scope slices keep only control flow, the calls that open / close a scope, the calls that bind a destination and the calls that check the expression named in the arm; that LocalBindings::get searches the scopes innermost-first, that infer_var records the position found, and that nothing else touches the scope stack, is not proved (rename.bounded[rename_corpus] covers it on a corpus)",
+    "the scope slices keep only control flow, the calls that open / close a scope, the calls that bind a destination and the calls that check the expression named in the arm; that infer_var records the position LocalBindings::get returns (get / set / enter_block / exit_block themselves are under contract here: innermost binding), and that nothing else touches the scope stack, is not proved (rename.bounded[rename_corpus] covers it on a corpus)",
 ]}
+
+GLUE_LB = """
+#[verifier::external_body] pub struct SymbolName { _o: u8 }
+impl Clone for SymbolName {
+    #[verifier::external_body]
+    fn clone(&self) -> (r: Self) ensures r == *self { unimplemented!() }
+}
+#[verifier::external_body] pub struct Type { _o: u8 }
+#[verifier::external_body] pub struct Position { _o: u8 }
+impl Clone for Position {
+    #[verifier::external_body]
+    fn clone(&self) -> (r: Self) ensures r == *self { unimplemented!() }
+}
+#[verifier::external_body] pub struct SyntaxId { _o: u8 }
+/// the part of ast::Symbol these functions read
+pub struct Symbol { pub name: SymbolName, pub position: Position, pub id: SyntaxId }
+#[verifier::external_body] pub struct TcBlock { _o: u8 }
+/// the bindings of one scope as a map
+pub uninterp spec fn tbm(b: TcBlock) -> Map<SymbolName, (Type, Position)>;
+#[verifier::external_body]
+pub fn vtb_new() -> (r: TcBlock) ensures tbm(r) == Map::<SymbolName, (Type, Position)>::empty() { unimplemented!() }
+#[verifier::external_body]
+pub fn vtb_get<'a>(b: &'a TcBlock, name: &SymbolName) -> (r: Option<&'a (Type, Position)>)
+    ensures r is Some <==> tbm(*b).contains_key(*name), r is Some ==> *r->Some_0 == tbm(*b)[*name],
+{ unimplemented!() }
+#[verifier::external_body]
+pub fn vtb_insert_last(bs: &mut Vec<TcBlock>, name: SymbolName, v: (Type, Position))
+    requires old(bs)@.len() >= 1,
+    ensures final(bs)@.len() == old(bs)@.len(),
+        forall|j: int| 0 <= j < old(bs)@.len() - 1 ==> final(bs)@[j] == old(bs)@[j],
+        tbm(final(bs)@[old(bs)@.len() - 1]) == tbm(old(bs)@[old(bs)@.len() - 1]).insert(name, v),
+{ unimplemented!() }
+"""
 
 GLUE = """
 #[verifier::external_body]
@@ -213,6 +250,42 @@ def build(tier):
             u.emit(t, Tag("repo", fn=gname, repo_file=TC, repo_line=ln, props=props))
         u.emit("    (checked, bound_before_check)", Tag("glue", fn=gname, props=props))
         u.emit("}", tag)
+    # ---- LocalBindings: a name reads as its innermost binding -------------------------------------------------------
+    u.raw(GLUE_LB, kind="prelude")
+    u.add_type(TC, "LocalBindings", rules=[rw.simple("T1", r"FxHashMap<SymbolName, \(Type, Position\)>", "TcBlock")])
+    specs = open(os.path.join(ROOT, "units", "bindings", "specs.rs")).read()
+    for a_, b_ in (("BlockBindings", "TcBlock"), ("InternedSymbolId", "SymbolName"), ("Option<Value>", "Option<(Type, Position)>"), ("v: Value", "v: (Type, Position)"), ("bbm(", "tbm(")):
+        specs = specs.replace(a_, b_)
+    u.raw(specs, kind="spec")
+    IMPL = "LocalBindings"
+    BS, OLDB, FINB = "self.blocks@", "old(self).blocks@", "final(self).blocks@"
+    u.add_fn(TC, "enter_block", impl=IMPL, rules=[rw.simple("R2", r"FxHashMap::default\(\)", "vtb_new()")],
+             contract=Contract(ensures=[("a_new_empty_scope_on_top", "%s.len() == %s.len() + 1, %s.drop_last() == %s, tbm(%s.last()) == Map::<SymbolName, (Type, Position)>::empty()" % (FINB, OLDB, FINB, OLDB, FINB)),
+                                        ("every_name_reads_as_before", "forall|n: SymbolName| lookup(%s, n) == lookup(%s, n)" % (FINB, OLDB))],
+                               body_prelude="proof { assert forall|n: SymbolName| lookup(%s.push(vtb_new_spec()), n) == lookup(%s, n) by { } }" % (OLDB, OLDB) if False else None,
+                               props=props))
+    u.add_fn(TC, "exit_block", impl=IMPL,
+             contract=Contract(ensures=[("the_innermost_scope_is_dropped", "%s.len() >= 1 ==> %s == %s.drop_last()" % (OLDB, FINB, OLDB))], props=props))
+    u.add_fn(TC, "get", impl=IMPL, rules=["R6", "R4", rw.simple("R2", r"block\.get\(name\)", "vtb_get(block, name)")],
+             contract=Contract(
+                 ensures=[("innermost_binding", "match r { Some(tp) => lookup(%s, *name) == Some(*tp), None => lookup(%s, *name) is None }" % (BS, BS))],
+                 loops={1: dict(invariant=[("not_in_the_inner_scopes", "{I} <= %s.len(), lookup(%s, *name) == lookup(%s.take({I} as int), *name)" % (BS, BS, BS))],
+                                body_prelude="proof { lemma_lookup_skip(%s.take({I} as int), *name); assert(%s.take({I} as int).drop_last() =~= %s.take({I} as int - 1)); }" % (BS, BS, BS),
+                                decreases="{I}")},
+                 body_prelude="proof { assert(%s.take(%s.len() as int) =~= %s); }" % (BS, BS, BS),
+                 props=props))
+    u.add_fn(TC, "set", impl=IMPL,
+             rules=[rw.simple("R13l", r"let block = self\.blocks\.last_mut\(\)\.expect\(\"[^\"]*\"\);\s*block\.insert\(symbol\.name\.clone\(\), \(ty, symbol\.position\.clone\(\)\)\);",
+                              "vtb_insert_last(&mut self.blocks, symbol.name.clone(), (ty, symbol.position.clone()));")],
+             contract=Contract(
+                 requires=[("some_scope", "%s.len() >= 1" % OLDB)],
+                 ensures=[("the_name_reads_as_the_new_binding", "lookup(%s, symbol.name) == Some((ty, symbol.position))" % FINB),
+                          ("other_names_untouched", "forall|o: SymbolName| o != symbol.name ==> lookup(%s, o) == lookup(%s, o)" % (FINB, OLDB)),
+                          ("bound_in_the_innermost_scope", "%s.len() == %s.len(), %s.drop_last() =~= %s.drop_last()" % (FINB, OLDB, FINB, OLDB))],
+                 hints=[dict(anchor="vtb_insert_last(", where="after_stmt", name="innermost_scope_updated",
+                             text="proof { let i = %s.len() - 1; lemma_lookup_update(%s, self.blocks@, i, symbol.name, (ty, symbol.position));\n"
+                                  "    assert forall|o: SymbolName| o != symbol.name implies lookup(self.blocks@, o) == lookup(%s, o) by { lemma_lookup_other(%s, self.blocks@, i, symbol.name, (ty, symbol.position), o); } }" % (OLDB, OLDB, OLDB, OLDB))],
+                 props=props))
     u.add_canary_proof()
     u.raw(common.FOOTER)
     return u
